@@ -328,7 +328,15 @@ def chain_states(ctx, cfg):
 def run(ctx):
     thorough = ctx.tier == "thorough"
     rng = random.Random(ctx.seed + 707)
-    ctx.rule = "see module docstring"
+    ctx.rule = ("A: chains enumerated by TLC from spec/Layers.tla (depth <= 2-3, per-layer {holds, zero, absent}^3) realised as VDI parents, "
+                "QCOW2 backing chains (std / extended L2), HDS(fh, parent), Parallels HDD snapshot chains on disk (default and non-default "
+                "TopGUID, shuffled element order), VMDK descriptor + delta extents on disk (same / sibling directory), VHDX differencing "
+                "chains on disk (relative / absolute locator) x all requests; B: random chains at real geometry (VHDX per-sector bitmaps "
+                "with sector-addressed reads at every bit alignment, QCOW2 32-bit sub-cluster bitmaps, VDI), depth 2-4, validated by "
+                "TraceDisk!ChainSrc; QCOW2 internal snapshots opened before/after reads on the active image; parent-resolution "
+                "configurations from Layers_res (first existing candidate wins, none -> rejected, QCOW2 opt-out). "
+                "Non-trivial = request crossing a source change / every resolution configuration.")
+    ctx.assumptions = ["encoders as in C01-C06", "a VHDX base layer is block-granular, sub-block precedence is exercised in B"]
     diskprop.tlc_check(ctx, "Layers", "Layers_small.cfg", need_actions=("Open",))
     sts = chain_states(ctx, "Layers_img.cfg")
     if not thorough:
@@ -336,6 +344,11 @@ def run(ctx):
         sts = rng.sample(sts, min(len(sts), 160))
     direction_A(ctx, sts, thorough)
     direction_B(ctx, thorough)
+    qcow2_snapshots(ctx, rng, 40 if thorough else 10)
+    diskprop.tlc_check(ctx, "Layers", "Layers_res.cfg", min_states=100)
+    resolution(ctx, thorough)
+    diskprop.tlc_check(ctx, "VhdxPartial", "VhdxPartial_big.cfg" if thorough else "VhdxPartial_small.cfg", min_states=200)
+    diskprop.tlc_check(ctx, "Vhdx", "VhdxDiff_small.cfg", min_states=200)
 
 
 # ---------------------------------------------------------------- direction B: random chains at real geometry
@@ -511,3 +524,196 @@ def direction_B(ctx, thorough):
 
     diskprop.traces(ctx, "chain", mk, 240 if thorough else 48, "TraceDisk", "TraceDisk.cfg",
                     lambda t: {"format": "chain", "kind": t["kind"], "depth": len(t["chain"]), "mode": "B"}, label="random chains")
+
+
+# ---------------------------------------------------------------- QCOW2 internal snapshots (alternative L1 tables in one file)
+def qcow2_snapshots(ctx, rng, nsets):
+    """Active image + internal snapshots built from TLC-enumerated Qcow2 images (each with its TLC view); the snapshot views
+    are opened before/after reads on the active image (shared state must not leak)."""
+    from dissect.hypervisor.disk.qcow2 import QCow2
+
+    import props.c01 as c01
+    sts = [s for s in diskprop.dump_states(ctx, "Qcow2", "Qcow2_img.cfg")
+           if not s["img"]["datafile"] and s["img"]["back"] == -1 and s["img"]["size"] == 8 and all(s["img"]["l1"].values())]
+    inter = [s for s in sts if disk.view_features(disk.norm_view(s["view"]))["discontinuous"]]
+    for k in range(nsets):
+        picks = rng.sample(inter, 3)
+        cb, K = 9, 32
+        vf, infos = enc_qcow2.build_with_snapshots(picks[0]["img"], [p["img"] for p in picks[1:]], cluster_bits=cb, K=K,
+                                                   snap_meta=[("1", "first", 16), ("2", "zweite-✓", 24)])
+        views = [disk.norm_view(p["view"]) for p in picks]
+        cs = 1 << cb
+
+        def tokb_for(info):
+            def tokb(tok, a, n, cell=info["cell"], cs=cs, K=K):
+                if tok["k"] != "C":
+                    return None
+                x = tok["c"] * cell + a
+                out = []
+                while n > 0:
+                    j, off = divmod(x, cs)
+                    t = min(n, cs - off)
+                    out.append(patterns.cpat(tok["f"] * K + j, off, t))
+                    x += t
+                    n -= t
+                return b"".join(out)
+            return tokb
+
+        builts = [disk.Built(open=None, cell=i["cell"], size=i["size"], bases={0: i["data_base"]}, tok_bytes=tokb_for(i)) for i in infos]
+        attrs = {"realisation": "qcow2-snapshot", "format": "qcow2-snapshot"}
+        det = {"images": [p["img"] for p in picks]}
+        try:
+            vf.seek(0)
+            q = QCow2(vf)
+            order = rng.choice(["active-first", "snapshot-first"])
+            objs = {}
+            if order == "active-first":
+                q.seek(0)
+                q.read(rng.choice([1, 512, 5000]))  # fills the alignment buffer of the active image at position 0
+            snaps = q.snapshots
+            if len(snaps) != 2:
+                ctx.violation({**attrs, "fail": "snapshot-count"}, {**det, "got": len(snaps)})
+                continue
+            objs = {0: q, 1: snaps[0].open(), 2: snaps[1].open()}
+            for step in range(24):
+                which = rng.randrange(3)
+                b = builts[which]
+                o = rng.choice([0, 0, rng.randrange(0, b.size)])
+                n = rng.choice([1, 512, 4096, 9000, b.size])
+                exp = disk.expected(views[which], o, n, b)
+                objs[which].seek(o)
+                got = objs[which].read(n)
+                nt = True
+                ctx.case(key=("snap", k, step, which, o, n), nontrivial=nt,
+                         sample={"realisation": "qcow2-snapshot", "view": which, "read": [o, n]} if step == 0 and k == 0 else None)
+                if got != exp:
+                    ctx.violation({**attrs, "fail": "read-mismatch", "view": which, "order": order},
+                                  {**det, "order": order, "step": step, "view": which, "read": [o, n], "diff": disk.first_diff(exp, got)})
+                    break
+        except Exception as e:  # noqa: BLE001
+            ctx.violation({**attrs, "fail": "raised", "exc": type(e).__name__}, {**det, "error": repr(e)[:300], "tb": traceback.format_exc()[-1200:]})
+
+
+# ---------------------------------------------------------------- parent resolution configurations (MissingParentRejected, FirstCandidateUsed)
+def _which_parent(buf):
+    t = patterns.decode_cell(buf[:512], 512)
+    if t[0] == "Z":
+        return 0
+    if t[0] == "D":
+        return t[1]  # pattern file id: candidate k has id k
+    return -1
+
+
+def _mk_parent_vhdx(path, fid, bs=1 << 20):
+    vf, _ = enc_vhdx.build([(enc_vhdx.ST_FULL, 0)], block_size=bs, sector_size=512, disk_size=bs, file_id=fid)
+    os.makedirs(os.path.dirname(path), exist_ok=True)
+    vf.materialise(path)
+
+
+def res_vhdx(fs, work):
+    from dissect.hypervisor.disk.vhdx import VHDX
+
+    d = tempfile.mkdtemp(prefix="res-vhdx-", dir=work)
+    d2 = tempfile.mkdtemp(prefix="res-vhdx-abs-", dir=work)
+    if fs[0]:
+        _mk_parent_vhdx(os.path.join(d, "rel dir", "parent.vhdx"), 1)
+    if fs[1]:
+        _mk_parent_vhdx(os.path.join(d2, "parent.vhdx"), 2)
+    loc = {"parent_linkage": "{11111111-2222-3333-4444-555555555555}", "relative_path": ".\\rel dir\\parent.vhdx",
+           "absolute_win32_path": (d2.lstrip("/") + "/parent.vhdx").replace("/", "\\")}
+    vf, _ = enc_vhdx.build([(enc_vhdx.ST_NOT_PRESENT, None)], block_size=1 << 20, sector_size=512, disk_size=1 << 20, has_parent=True, locator=loc, file_id=9)
+    vf.materialise(os.path.join(d, "child.avhdx"))
+    v = VHDX(Path(d) / "child.avhdx")
+    return _which_parent(v.read(512))
+
+
+def res_vmdk(fs, work):
+    from dissect.hypervisor.disk.vmdk import VMDK
+
+    root = tempfile.mkdtemp(prefix="res-vmdk-", dir=work)
+    cdir, sdir = os.path.join(root, "child"), os.path.join(root, "base vm")
+    os.makedirs(cdir)
+    os.makedirs(sdir)
+
+    def mk_parent(where, fid):
+        vf, _ = enc_vmdk.build_hosted([("D", 1)], [True], capacity=8, grain=8, gtes=4, file_id=fid,
+                                      desc=enc_vmdk.descriptor_text(['RW 8 SPARSE "parent.vmdk"']))
+        vf.materialise(os.path.join(where, "parent.vmdk"))
+
+    if fs[0]:
+        mk_parent(cdir, 1)
+    if fs[1]:
+        mk_parent(sdir, 2)
+    vf, _ = enc_vmdk.build_hosted([("U", 0)], [True], capacity=8, grain=8, gtes=4, file_id=9)
+    vf.materialise(os.path.join(cdir, "child-s001.vmdk"))
+    with open(os.path.join(cdir, "child.vmdk"), "w") as f:
+        f.write(enc_vmdk.descriptor_text(['RW 8 SPARSE "child-s001.vmdk"'], parent_cid="1234abcd", parent_hint="C:\\vms\\base vm\\parent.vmdk"))
+    v = VMDK(Path(cdir) / "child.vmdk")
+    return _which_parent(v.read(512))
+
+
+def res_hdd(fs, work):
+    from dissect.hypervisor.disk.hdd import HDD
+
+    top = tempfile.mkdtemp(prefix="res-hdd-", dir=work)
+    root = os.path.join(top, "cur.pvm", "cur.hdd")
+    os.makedirs(root)
+    cs = 4096
+    cands = [os.path.join(root, "base.hds"), os.path.join(top, "cur.pvm", "orig.hdd", "base.hds"), os.path.join(top, "orig.pvm", "orig.hdd", "base.hds")]
+    for k, (ex, p) in enumerate(zip(fs, cands)):
+        if ex:
+            os.makedirs(os.path.dirname(p), exist_ok=True)
+            vf, _ = enc_hds.build({"ver": 2, "n": 1, "cb": 1, "bat": {0: 1}, "size": 1}, cluster_size=cs, file_id=k + 1, P=2)
+            vf.materialise(p)
+    tvf, _ = enc_hds.build({"ver": 2, "n": 1, "cb": 1, "bat": {0: 0}, "size": 1}, cluster_size=cs, file_id=9, P=2)
+    g0, g1 = enc_hds.DEFAULT_TOP, "{aaaaaaaa-1111-2222-3333-444444444444}"
+    absent = "/nonexistent-verif/orig.pvm/orig.hdd/base.hds"
+    enc_hds.write_hdd_dir(root, [(0, cs // 512, [(g1, "Compressed", absent), (g0, "Compressed", "top.hds")])],
+                          [(g0, g1), (g1, enc_hds.NULL_GUID)], {"top.hds": tvf}, top_guid=g0)
+    s = HDD(Path(root)).open()
+    return _which_parent(s.read(512))
+
+
+def res_qcow2(fs, opt_out):
+    from dissect.hypervisor.disk import qcow2 as q
+
+    cb = 9
+    img = {"ext": False, "datafile": False, "l2n": 64, "s": 1, "l1": {0: True}, "l2": {0: {"t": "U", "h": 0, "sub": []}}, "back": 1, "size": 1}
+    vf, _, info = enc_qcow2.build(img, cluster_bits=cb, K=1)
+    backing = disk.ParentStream(512, f=1) if fs[0] else (q.ALLOW_NO_BACKING_FILE if opt_out else None)
+    obj = q.QCow2(vf, backing_file=backing)
+    return _which_parent(obj.read(512))
+
+
+def resolution(ctx, thorough):
+    sts = [s for s in diskprop.dump_states(ctx, "Layers", "Layers_res.cfg") if s["phase"] != "closed" and s["last"]["op"] == "open" and len(s["chain"]) == 2]
+    seen = set()
+    work = tempfile.mkdtemp(prefix="verif-c07r-")
+    try:
+        for st in sts:
+            fs = list(st["fs"]) if isinstance(st["fs"], list) else [st["fs"][k] for k in (1, 2, 3)]
+            key = (tuple(fs), st["optOut"])
+            if key in seen:
+                continue
+            seen.add(key)
+            for fmt, ncand, fn in (("vhdx", 2, res_vhdx), ("vmdk", 2, res_vmdk), ("hdd", 3, res_hdd), ("qcow2", 1, None)):
+                if fmt != "qcow2" and st["optOut"]:
+                    continue  # only QCOW2 has an explicit opt-out
+                f = fs[:ncand]
+                first = next((k + 1 for k, x in enumerate(f) if x), 0)
+                if first == 0 and not st["optOut"]:
+                    want = "rejected"
+                else:
+                    want = first
+                ctx.case(key=("res", fmt, tuple(f), st["optOut"]), nontrivial=True,
+                         sample={"resolution": fmt, "fs": f, "optOut": st["optOut"], "spec_phase": st["phase"], "want": want} if fmt == "hdd" and first == 2 else None)
+                try:
+                    got = fn(f, work) if fn else res_qcow2(f, st["optOut"])
+                except Exception as e:  # noqa: BLE001
+                    got = "rejected"
+                    err = repr(e)[:200]
+                if got != want:
+                    ctx.violation({"format": fmt, "fail": "resolution", "realisation": "resolution"},
+                                  {"format": fmt, "fs": f, "optOut": st["optOut"], "want": want, "got": got})
+    finally:
+        shutil.rmtree(work, ignore_errors=True)
